@@ -29,6 +29,10 @@ type normHook func(t *Term, rec func(*Term) string) (string, bool)
 
 // effectsOf, if non-nil, selects the call instructions that count as ordered effects of a path.
 func (p *Program) DecisionTable(fn *ssa.Function, hook normHook, effectsOf func(ssa.Instruction) bool) (*dtTable, bool) {
+	return p.decisionTable(fn, hook, effectsOf, 0)
+}
+
+func (p *Program) decisionTable(fn *ssa.Function, hook normHook, effectsOf func(ssa.Instruction) bool, depth int) (*dtTable, bool) {
 	paths, ok := p.EnumPaths(fn, 20000)
 	if !ok {
 		return nil, false
@@ -61,6 +65,30 @@ func (p *Program) DecisionTable(fn *ssa.Function, hook normHook, effectsOf func(
 				rs = append(rs, p.TermOnPath(pa, pa.resolveDeep(r)).Render(hook))
 			}
 			row.Result = strings.Join(rs, " ; ")
+			// the result is decided by a same-package helper with several outcomes (`return pick(pos, flag)`):
+			// one row per outcome of the helper, under the helper's own conditions
+			if len(pa.Ret.Results) == 1 && depth < 2 && effectsOf == nil {
+				rt := p.TermOnPath(pa, pa.resolveDeep(pa.Ret.Results[0]))
+				if sub := p.helperRows(fn, rt, hook, depth); sub != nil {
+					for _, sr := range sub {
+						merged := dtRow{Facts: map[string]bool{}, Result: sr.Result}
+						okRow := true
+						for k, v := range row.Facts {
+							merged.Facts[k] = v
+						}
+						for k, v := range sr.Facts {
+							if old, had := merged.Facts[k]; had && old != v {
+								okRow = false
+							}
+							merged.Facts[k] = v
+						}
+						if okRow && !contradictory(merged.Facts) {
+							tb.Rows = append(tb.Rows, merged)
+						}
+					}
+					continue
+				}
+			}
 		}
 		if effectsOf != nil {
 			for _, b := range pa.Blocks {
@@ -318,4 +346,45 @@ func checkOrderModel(tb *dtTable, symbols []string, max int, classify func(dtRow
 	}
 	rec(0)
 	return diffs
+}
+
+// helperRows: rt is a call to a loop-free helper of fn's package that the hook does not interpret
+// and that has more than one return: its decision table with the parameters rendered as the
+// call's arguments. nil when rt is anything else.
+func (p *Program) helperRows(fn *ssa.Function, rt *Term, hook normHook, depth int) []dtRow {
+	if rt == nil || rt.Op != "call" || rt.Fn == nil || rt.Fn == fn || rt.Fn.Pkg == nil || rt.Fn.Pkg != outermost(fn).Pkg || len(rt.Fn.Blocks) == 0 {
+		return nil
+	}
+	g := rt.Fn
+	if hook != nil {
+		if _, interpreted := hook(rt, func(x *Term) string { return x.Render(hook) }); interpreted {
+			return nil
+		}
+	}
+	nret := 0
+	for _, b := range g.Blocks {
+		if len(b.Instrs) > 0 && b != g.Recover {
+			if _, ok := b.Instrs[len(b.Instrs)-1].(*ssa.Return); ok {
+				nret++
+			}
+		}
+	}
+	if nret < 2 || g.Signature.Results().Len() != 1 {
+		return nil
+	}
+	args := rt.Args
+	inner := func(t *Term, rec func(*Term) string) (string, bool) {
+		if t.Op == "param" && t.Fn == g && t.Idx < len(args) {
+			return args[t.Idx].Render(hook), true
+		}
+		if hook != nil {
+			return hook(t, rec)
+		}
+		return "", false
+	}
+	tb, ok := p.decisionTable(g, inner, nil, depth+1)
+	if !ok {
+		return nil
+	}
+	return tb.Rows
 }
